@@ -19,8 +19,12 @@ Streams
              exactly the keys of get_changed_files() / the pairs of get_renames(); after apply() every
              `+++` name is a file that holds get_new_code() and every renamed-away `---` name is gone),
              layout (which of inside/outside the project x changed/moved/changed+moved a case covers),
-             inspect (nothing on disk changes before
-             apply), apply (disk afterwards = announced contents and names, nothing else),
+             inspect (nothing on disk changes before apply; every inspect method - Refactoring.get_renames /
+             get_changed_files / get_diff, ChangedFile.get_new_code / get_diff - answers, judged one by one),
+             inspect-methods (which part of the domain each answer covers: Script with / without a path x
+             result with / without file renames x buffer alone / + files on disk),
+             apply (disk afterwards = announced contents and names, nothing else; a result that changes a
+             buffer without a path cannot come true: apply() refuses with RefactoringError and writes nothing),
              bytes (text outside the rewritten nodes preserved, by absolute offsets; the text in front of
              each rewritten node - its parso prefix: line break, comment / blank lines, indentation - must
              survive inside the replacement, only whole new lines may be inserted into it),
@@ -46,12 +50,20 @@ MANIFEST = dict(
          'group and then old = new; get_diff normalisation appends at most one newline; inspection requests '
          'leave the FS model unchanged, apply (phase order and newline= taken from the source by the '
          'translator) leaves exactly get_new_code() at every changed path and nothing else, then renames; '
-         'apply on a path-less Script refuses with RefactoringError; the until-position prologue raises no '
+         'apply on a path-less Script refuses with RefactoringError (for both phase orders the translator knows; '
+         'with the refusal in front nothing is written - apply_refusal_writes_nothing_partial - and the order of '
+         'the source as it is writes the files in front of the path-less entry first: '
+         'apply_refusal_half_applied_witness = known finding C07-pathless-apply-half-applied); calculate_to_path, '
+         'read statement by statement (None guard, fold / first-match loop), keeps the key None of a Script without '
+         'a path for ANY list of file renames (to_path_none_stays_none, to_path_total) and the section of such a '
+         'buffer shows the empty name in both headers (pathless_section_names_nothing); the until-position prologue raises no '
          'IndexError under a stated range hypothesis (kernel-checked counter-witness for the unrestricted '
          'statement = F3) and none at all once the range check exists. Tie: translator constants + '
          'correspondence on real refactorings (rename, inline, extract_variable, extract_function) over '
          'generated projects with LF/CRLF/CR endings, with/without final newline, unicode identifiers, '
-         'module renames; worlds on disk whose files lie inside the Project path, below it, outside of it (sibling '
+         'module renames; Scripts without a path (unsaved buffers: fresh texts and unsaved copies of files on disk) '
+         'whose renames of modules / packages / namespace packages carry file renames, alone or together with changed '
+         'files on disk; worlds on disk whose files lie inside the Project path, below it, outside of it (sibling '
          'directories on sys_path / added_sys_path, one with the project name as a string prefix) with modules, '
          'packages, nested packages and namespace packages over two roots that are changed only, moved only, '
          'changed AND moved (modules that refer to themselves / their own package); the `---`/`+++` header '
@@ -116,6 +128,10 @@ def norm_lines(s):
 
 class PatchError(Exception):
     pass
+
+
+class _Done(Exception):
+    """leaves a block early"""
 
 
 _HUNK = re.compile(r'^@@ -(\d+)(?:,(\d+))? \+(\d+)(?:,(\d+))? @@\n$')
@@ -473,7 +489,8 @@ def sandbox_quirk(e):
 
 HOW = ("write input.files under an empty directory W; P = W/<input.project>; project = jedi.Project(P, "
        "sys_path=[W/d for d in input.sys_path], added_sys_path=[W/d for d in input.added_sys_path], "
-       "smart_sys_path=False); s = jedi.Script(path=W/<input.file>, project=project); "
+       "smart_sys_path=False); s = jedi.Script(path=W/<input.file>, project=project) - or, when input.file "
+       "is null, the unsaved buffer jedi.Script(input.request.code, path=None, project=project); "
        "r = s.<kind>(line, column, **args); compare r.get_diff() (every `--- a`/`+++ b` header and "
        "`rename from/to` line joined to P), r.get_changed_files()[p].get_new_code(), r.get_renames(), "
        "the directory W before/after r.apply()  (or: ./check C07 --replay <this file>)")
@@ -568,6 +585,10 @@ def run_case(ctx, n, files, main_rel, req, do_apply, reqs, pending, verbose=Fals
     shutil.rmtree(root, ignore_errors=True)
     os.makedirs(root)
     case = {'files': files, 'file': req.get('file', main_rel), 'request': req, 'apply': do_apply}
+    # a Script without a path (an unsaved buffer): `file` is None, the text is request.code
+    pathless = case['file'] is None
+    src_text = req['code'] if pathless else files[case['file']]
+    src_key = (src_text, json.dumps(req, sort_keys=True))
     if layout:
         case.update({k: layout[k] for k in ('project', 'sys_path', 'added_sys_path') if k in layout})
     proj_rel, sys_rel, added_rel = layout_of(case)
@@ -591,12 +612,13 @@ def run_case(ctx, n, files, main_rel, req, do_apply, reqs, pending, verbose=Fals
         for d in list(sys_rel) + list(added_rel):
             os.makedirs(os.path.join(root, d), exist_ok=True)
         snap0 = snapshot(root)
-        target = os.path.join(root, case['file'])
+        target = None if pathless else os.path.join(root, case['file'])
         project = jedi.Project(P, sys_path=[os.path.normpath(os.path.join(root, d)) for d in sys_rel],
                                added_sys_path=[os.path.normpath(os.path.join(root, d)) for d in added_rel],
                                smart_sys_path=False)
         try:
-            script = jedi.Script(path=target, project=project)
+            script = jedi.Script(src_text, path=None, project=project) if pathless else \
+                jedi.Script(path=target, project=project)
             ref = call_refactoring(script, req)
             exc = None
         except (RefactoringError, ValueError) as e:
@@ -607,7 +629,7 @@ def run_case(ctx, n, files, main_rel, req, do_apply, reqs, pending, verbose=Fals
             if sandbox_quirk(e):
                 ctx.count('raised-sandbox', None, nontrivial=False, bucket='%s@%s' % (cls, site))
                 return
-            ctx.count('oracle-exceptions', (files[case['file']], json.dumps(req, sort_keys=True)), bucket=cls)
+            ctx.count('oracle-exceptions', src_key, bucket=cls)
             ctx.fail('oracle-exceptions', 'refactoring request raised %s (only RefactoringError / ValueError '
                      'are allowed)' % cls, dict(case, exception=cls), expected=list(ALLOWED_EXC),
                      observed={'class': cls, 'site': site, 'message': mask(str(e)[:200])}, how=HOW)
@@ -616,7 +638,7 @@ def run_case(ctx, n, files, main_rel, req, do_apply, reqs, pending, verbose=Fals
             return
         # --- until prologue correspondence (extract_*) ---------------------------------
         if req['kind'] in ('extract_variable', 'extract_function'):
-            text = files[case['file']]
+            text = src_text
             lens = [len(l) for l in split_keepends(text)]
             line, col = req['line'], req['column']
             in_range = isinstance(line, int) and 0 < line <= len(lens)
@@ -629,8 +651,9 @@ def run_case(ctx, n, files, main_rel, req, do_apply, reqs, pending, verbose=Fals
                              'uc': req.get('until_column')})
                 # what the prologue did: IndexError is impossible here (it would have been reported above)
                 pending.append(('until', case, 'no-IndexError'))
-        ctx.count('oracle-exceptions', (files[case['file']], json.dumps(req, sort_keys=True)),
-                  nontrivial=True, bucket=req['kind'] + ('/refused:' + type(exc).__name__ if exc else '/ok'))
+        ctx.count('oracle-exceptions', src_key, nontrivial=True,
+                  bucket=req['kind'] + ('/pathless' if pathless else '')
+                  + ('/refused:' + type(exc).__name__ if exc else '/ok'))
         if exc is not None:
             snap1 = snapshot(root)
             if snap1 != snap0:
@@ -638,28 +661,76 @@ def run_case(ctx, n, files, main_rel, req, do_apply, reqs, pending, verbose=Fals
                          observed=diff_snap(snap0, snap1), how=HOW)
             return
         # --- inspection ------------------------------------------------------------------
-        try:
-            changed = ref.get_changed_files()
-            renames = ref.get_renames()
-            whole_diff = ref.get_diff()
-            info = []
-            for path, cf in changed.items():
-                info.append({'path': path, 'cf': cf, 'new': cf.get_new_code(), 'diff': cf.get_diff(),
-                             'old': cf._module_node.get_code()})
-        except Exception as e:
-            cls, site = common.exc_site(e)
-            if sandbox_quirk(e):
+        # every inspect method on its own: each of them has to answer (an exception of any class means
+        # there is no diff / no list of files for a result the request has just handed out)
+        raised = []         # (method, exception)
+
+        def attempt(method, f):
+            try:
+                return f()
+            except Exception as e:
+                raised.append((method, e))
+                if verbose:
+                    traceback.print_exc()
+                return None
+        renames = attempt('Refactoring.get_renames', lambda: list(ref.get_renames()))
+        changed = attempt('Refactoring.get_changed_files', ref.get_changed_files)
+        whole_diff = attempt('Refactoring.get_diff', ref.get_diff)
+        info = []
+        for path, cf in (changed or {}).items():
+            info.append({'path': path, 'cf': cf,
+                         'new': attempt('ChangedFile.get_new_code', cf.get_new_code),
+                         'diff': attempt('ChangedFile.get_diff', cf.get_diff),
+                         'old': cf._module_node.get_code()})
+        # which part of the domain: a result with / without a path, carrying file renames or not
+        dom = '%s/%s' % ('pathless' if pathless else 'path',
+                         'no-answer' if renames is None else 'renames' if renames else 'no-renames')
+        if pathless and changed is not None:
+            dom += '/alone' if len(changed) <= 1 else '/+files'
+        for method in ('Refactoring.get_renames', 'Refactoring.get_changed_files', 'Refactoring.get_diff'):
+            ctx.count('oracle-inspect-methods', src_key + (method,), nontrivial=bool(renames),
+                      bucket='%s %s' % (method, dom))
+        if raised:
+            if all(sandbox_quirk(e) for _, e in raised):
+                cls, site = common.exc_site(raised[0][1])
                 ctx.count('raised-sandbox', None, nontrivial=False, bucket='%s@%s' % (cls, site))
                 return
-            ctx.fail('oracle-patch', 'inspecting the refactoring result (get_changed_files / get_renames / '
-                     'get_diff / get_new_code) raised %s: there is no diff' % cls, dict(case, exception=cls),
-                     observed={'class': cls, 'site': site, 'message': mask(str(e)[:200])}, how=HOW)
-            if verbose:
-                traceback.print_exc()
+            seen = set()
+            for method, e in raised:
+                cls, site = common.exc_site(e)
+                if sandbox_quirk(e) or (method, cls) in seen:
+                    continue
+                seen.add((method, cls))
+                ctx.fail('oracle-inspect', '%s() of a refactoring result raised %s: the result cannot be '
+                         'inspected' % (method, cls), dict(case, exception=cls, method=method, domain=dom),
+                         expected='an answer (no exception)',
+                         observed={'class': cls, 'site': site, 'message': mask(str(e)[:200])}, how=HOW)
+            snap1 = snapshot(root)
+            if snap1 != snap0:
+                ctx.fail('oracle-inspect', 'inspecting (with an exception) changed the disk', case,
+                         observed=diff_snap(snap0, snap1), how=HOW)
+            if do_apply:
+                # what can still be judged without the announced contents: apply() fails with nothing but
+                # RefactoringError, and a refusal writes nothing
+                try:
+                    ref.apply()
+                    aerr = None
+                except RefactoringError as e:
+                    aerr = e
+                except Exception as e:
+                    cls, site = common.exc_site(e)
+                    ctx.fail('oracle-apply', 'apply() raised %s' % cls, dict(case, domain=dom),
+                             expected='RefactoringError or success',
+                             observed={'class': cls, 'site': site, 'message': mask(str(e)[:200]),
+                                       'disk': diff_snap(snap0, snapshot(root))}, how=HOW)
+                    return
+                if aerr is not None and snapshot(root) != snap0:
+                    ctx.fail('oracle-apply', 'apply() refused with RefactoringError but changed the disk',
+                             dict(case, domain=dom), expected='no change',
+                             observed=diff_snap(snap0, snapshot(root)), how=HOW)
             return
         snap1 = snapshot(root)
-        ctx.count('oracle-inspect', (files[case['file']], json.dumps(req, sort_keys=True)), nontrivial=bool(info),
-                  bucket=req['kind'])
+        ctx.count('oracle-inspect', src_key, nontrivial=bool(info), bucket=req['kind'] + ('/pathless' if pathless else ''))
         if snap1 != snap0:
             ctx.fail('oracle-inspect', 'get_diff/get_new_code/get_changed_files/get_renames changed the disk',
                      case, observed=diff_snap(snap0, snap1), how=HOW)
@@ -674,13 +745,22 @@ def run_case(ctx, n, files, main_rel, req, do_apply, reqs, pending, verbose=Fals
             path, cf = it['path'], it['cf']
             rel = rel_w(path) if path is not None else None
             it['rel'] = rel
-            key = (files.get(rel, ''), json.dumps(req, sort_keys=True))
+            key = src_key if path is None else (files.get(rel, ''), json.dumps(req, sort_keys=True))
             fcase = dict(case, changed_file=rel)
-            if rel not in snap0:
+            if path is None:
+                # the entry without a path is the Script's own buffer, and only a path-less Script has one
+                if not pathless:
+                    ctx.fail('oracle-names', 'get_changed_files() has an entry without a path although the '
+                             'Script has one', fcase, observed={'old': it['old']}, how=HOW)
+                    continue
+                if it['old'] != src_text:
+                    ctx.fail('oracle-names', 'the ChangedFile without a path was computed from a different '
+                             'text than the buffer holds', fcase, expected=src_text, observed=it['old'], how=HOW)
+            elif rel not in snap0:
                 ctx.fail('oracle-names', 'get_changed_files() names a path that is not a file of the project',
                          fcase, observed={'path': mask(str(path))}, how=HOW)
                 continue
-            if snap0[rel] != it['old']:
+            elif snap0[rel] != it['old']:
                 ctx.fail('oracle-names', 'the ChangedFile for this path was computed from a different text '
                          'than the file holds', fcase, expected=snap0[rel], observed=it['old'], how=HOW)
             # bytes outside the rewritten nodes
@@ -758,9 +838,19 @@ def run_case(ctx, n, files, main_rel, req, do_apply, reqs, pending, verbose=Fals
                     # the names: `--- a` is this file, `+++ b` is where the renames of the same refactoring
                     # leave it; both read back against the project path; a file inside the project is named
                     # relative to it
+                    h_old, h_new = parsed[0]['old'], parsed[0]['new']
+                    if path is None:
+                        # a buffer has no name: its section names no file (the empty name), whatever
+                        # renames the refactoring carries
+                        ctx.count('oracle-names', key, nontrivial=bool(abs_renames),
+                                  bucket='pathless/' + ('changed, renames elsewhere' if abs_renames else 'changed'))
+                        if h_old != '' or h_new != '':
+                            ctx.fail('oracle-names', 'the diff section of the buffer without a path names a file',
+                                     fcase, expected={'---': '', '+++': ''},
+                                     observed=mask({'---': h_old, '+++': h_new}), how=HOW)
+                        raise _Done()
                     from_abs = os.path.normpath(str(path))
                     to_abs = moved_to(from_abs, abs_renames)
-                    h_old, h_new = parsed[0]['old'], parsed[0]['new']
                     sections.append((h_old, h_new, rel, it['new']))
                     loc = 'inside' if inside(from_abs, P) else 'outside'
                     ctx.count('oracle-names', key, nontrivial=to_abs != from_abs or loc == 'outside',
@@ -777,6 +867,8 @@ def run_case(ctx, n, files, main_rel, req, do_apply, reqs, pending, verbose=Fals
                                  'after the renames), read against the project path', dict(fcase, where=loc),
                                  expected=mask({'---': from_abs, '+++': to_abs, 'project': P}),
                                  observed=mask({'---': h_old, '+++': h_new, 'problems': bad}), how=HOW)
+            except _Done:
+                pass
             except PatchError as e:
                 ctx.fail('oracle-patch', 'get_diff() is not a well-formed unified diff for this file: %s' % e,
                          fcase, observed=mask(it['diff']), how=HOW)
@@ -788,7 +880,7 @@ def run_case(ctx, n, files, main_rel, req, do_apply, reqs, pending, verbose=Fals
             pending.append(('render', fcase, {'old': it['old'], 'new': it['new']}))
             groups = [[list(o) for o in g] for g in
                       difflib.SequenceMatcher(None, old_l, new_l).get_grouped_opcodes(3)]
-            reqs.append({'op': 'diff', 'project': parts(P), 'from': parts(path),
+            reqs.append({'op': 'diff', 'project': parts(P), 'from': None if path is None else parts(path),
                          'renames': [[parts(a), parts(b)] for a, b in renames],
                          'old': it['old'], 'new': it['new'], 'groups': groups})
             pending.append(('diff', fcase, {'old': it['old'], 'new': it['new'], 'diff': it['diff']}))
@@ -804,9 +896,10 @@ def run_case(ctx, n, files, main_rel, req, do_apply, reqs, pending, verbose=Fals
             ctx.fail('oracle-names', 'the `rename from/to` lines of get_diff(), read against the project path, '
                      'are not the pairs of get_renames()', case, expected=mask(abs_renames),
                      observed=mask({'lines': pairs, 'resolved': got_pairs}), how=HOW)
-        touched = sorted(os.path.normpath(str(it['path'])) for it in info
-                         if it['path'] is not None and it['old'] != it['new'])
-        if sorted(resolve(a, P) for a, _ in heads) != touched:
+        # the entry without a path is named by the empty name, and only that one is
+        touched = sorted(('' if it['path'] is None else os.path.normpath(str(it['path'])))
+                         for it in info if it['old'] != it['new'])
+        if sorted(('' if a == '' else resolve(a, P)) for a, _ in heads) != touched:
             ctx.fail('oracle-names', 'the files named by the `---` headers of get_diff() are not the keys of '
                      'get_changed_files()', case, expected=mask(touched), observed=mask(heads), how=HOW)
         for a, b in rel_renames:
@@ -867,10 +960,27 @@ def run_case(ctx, n, files, main_rel, req, do_apply, reqs, pending, verbose=Fals
                     expected[b + k[len(a):]] = expected.pop(k)
         snap2 = snapshot(root)
         ctx.count('oracle-apply', (json.dumps(files, sort_keys=True), json.dumps(req, sort_keys=True)),
-                  nontrivial=snap2 != snap0,
-                  bucket=req['kind'] + ('/renames' if renames else '') + ('/target-exists' if taken else ''),
+                  nontrivial=snap2 != snap0 or pathless,
+                  bucket=req['kind'] + ('/pathless' if pathless else '') + ('/renames' if renames else '')
+                  + ('/target-exists' if taken else ''),
                   sample={'request': req, 'renames': rel_renames, 'changed': [it.get('rel') for it in info]})
-        if aerr is not None:
+        buffer_changed = any(it['path'] is None for it in info)
+        if buffer_changed:
+            # the announced text of the buffer has no file to go to: apply() cannot come true, it has to
+            # refuse (RefactoringError), and a refusal leaves the disk as it was
+            nfiles = sum(1 for it in info if it['path'] is not None)
+            pcase = dict(case, domain='pathless/%s/%s' % ('renames' if renames else 'no-renames',
+                                                          '+files' if nfiles else 'alone'))
+            if aerr is None:
+                ctx.fail('oracle-apply', 'apply() of a result that changes a buffer without a path did not '
+                         'refuse', pcase, expected='RefactoringError',
+                         observed={'disk': diff_snap(snap0, snap2)}, how=HOW)
+            elif snap2 != snap0:
+                ctx.fail('oracle-apply', 'apply() refused with RefactoringError but the refactoring is half '
+                         'applied: files were written (and nothing renamed)',
+                         dict(pcase, shape='pathless-apply-half-applied'), expected='no change on disk',
+                         observed={'message': mask(str(aerr)), 'disk': diff_snap(snap0, snap2)}, how=HOW)
+        elif aerr is not None:
             ctx.fail('oracle-apply', 'apply() refused on a project with paths', case,
                      observed={'message': mask(str(aerr))}, how=HOW)
         elif snap2 != expected:
@@ -879,7 +989,7 @@ def run_case(ctx, n, files, main_rel, req, do_apply, reqs, pending, verbose=Fals
                      how=HOW)
         # the diff as a client reads it: every `+++ b` is now a file holding the announced text, every
         # `--- a` that differs from its `+++ b` is gone
-        if aerr is None:
+        if aerr is None and not buffer_changed:
             for h_old, h_new, rel, new_code in sections:
                 a, b = resolve(h_old, P), resolve(h_new, P)
                 problems = []
@@ -899,11 +1009,12 @@ def run_case(ctx, n, files, main_rel, req, do_apply, reqs, pending, verbose=Fals
         if all('tree' in it for it in info):
             reqs.append({'op': 'fs', 'req': 'apply', 'linesep': os.linesep,
                          'files': [[parts(os.path.join(root, k)), v] for k, v in sorted(snap0.items())],
-                         'changes': [{'path': parts(it['path']), 'tree': it['tree'], 'map': it['map']}
-                                     for it in info],
+                         'changes': [{'path': None if it['path'] is None else parts(it['path']),
+                                      'tree': it['tree'], 'map': it['map']} for it in info],
                          'renames': [[parts(a), parts(b)] for a, b in renames],
                          'query': [parts(os.path.join(root, k)) for k in query]})
-            pending.append(('fs', case, {'query': query, 'snap': snap2}))
+            pending.append(('fs', case, {'query': query, 'snap': snap2,
+                                         'err': 'RefactoringError' if aerr is not None else None}))
     finally:
         shutil.rmtree(root, ignore_errors=True)
         try:
@@ -985,6 +1096,11 @@ def world_items(ctx):
             for req in refactor_layouts.requests_for(rng, w, per_world, exhaustive=not ctx.quick and v == 0):
                 items.append({'files': w['files'], 'file': req['file'], 'request': req,
                               'apply': rng.random() < 0.7, 'layout': lay})
+            # the same world asked from its unsaved buffers (Scripts without a path)
+            for req in refactor_layouts.requests_for(rng, w, 2 if ctx.quick else 4, buffers=True,
+                                                     exhaustive=not ctx.quick and v == 0):
+                items.append({'files': w['files'], 'file': None, 'request': req,
+                              'apply': rng.random() < 0.7, 'layout': lay})
             if not ctx.quick and v > 0:
                 for req in refactor_layouts.requests_for(rng, w, 4):
                     items.append({'files': w['files'], 'file': req['file'], 'request': req,
@@ -1014,9 +1130,10 @@ def compare(ctx, reqs, pending, answers):
                 ctx.tie_broken('correspondence:render',
                                short({'case': case, 'model': ans['render'], 'impl': it['new']}, 1500))
         elif kind == 'diff':
-            outside = req['from'][:len(req['project'])] != req['project']
+            outside = req['from'] is not None and req['from'][:len(req['project'])] != req['project']
             ctx.count('diff', key, nontrivial=it['old'] != it['new'],
-                      bucket=eol_kind(it['old']) + ('/outside-project' if outside else ''))
+                      bucket=eol_kind(it['old']) + ('/outside-project' if outside else '')
+                      + ('/pathless' + ('+renames' if req['renames'] else '') if req['from'] is None else ''))
             want_b = norm_lines(it['new'])
             ok = ans.get('valid') is True and ans.get('text') == it['diff'] and ans.get('applied') == want_b
             if not ok:
@@ -1030,7 +1147,7 @@ def compare(ctx, reqs, pending, answers):
         elif kind == 'fs':
             ctx.count('fs', key, nontrivial=True, bucket='renames=%d' % len(req['renames']))
             model = {q: c for q, (_, c) in zip(it['query'], ans['files']) if c is not None}
-            if ans['err'] is not None or model != it['snap']:
+            if ans['err'] != it.get('err') or model != it['snap']:
                 ctx.tie_broken('correspondence:fs', short(
                     {'case': case, 'model_err': ans['err'], 'model': diff_snap(it['snap'], model)}, 2000))
         elif kind == 'until':
@@ -1083,10 +1200,16 @@ def run(ctx):
             else:
                 req = gen_request(rng, files[main], main)
             ap = rng.random() < 0.6
+            # a seventh of the requests comes from an unsaved buffer with the text of the file (no path)
+            buf = rng.random() < 0.15
             if out:
                 f2, m2, r2, lay = place(files, main, req, prefix, project)
+                if buf:
+                    r2 = dict(r2, file=None, code=f2[r2.get('file', m2)])
                 add(f2, m2, r2, ap, lay)
             else:
+                if buf:
+                    req = dict(req, file=None, code=files[req.get('file', main)])
                 add(files, main, req, ap)
     items += world_items(ctx)
     for n, it in enumerate(items, 1):
